@@ -25,6 +25,7 @@ def instances(tier):
         # a failed rotation must not cost records either (the fault machinery is C08's subject)
         I("size_a_fault", trig="size", count=2, limit=2, sizes=(1, 3), maxrec=4, faults=1, pre="PreNone"),
         I("post_a_obst", trig="post", count=2, sizes=(1, 2), maxrec=3, obst=1, pre="PreNone"),
+        I("pre_a_obst", trig="pre", count=2, sizes=(1, 2), maxrec=4, obst=1, pre="PreNone"),
         # ... nor may a compressed archive whose last piece cannot be written (the newest archive's name takes no byte)
         I("size_gz_full", trig="size", count=1, limit=2, sizes=(1, 3), maxrec=4, obst=1, gz=True, pre="PreNone"),
         # a failing encoder leaves part of a record behind: the acknowledged records around it stay whole and in order
@@ -84,7 +85,9 @@ def run(tier, replay=None):
         run.add_tlc(res)
     bg_cases, bg_waits = 0, 0
     for i in instances(tier):
-        if not i["hist"] or i["faults"] or i["crash"] or i["obst"] or i["encfail"]:
+        # (histories with a directory in the way of an archive run with one check there: the newest acknowledged record
+        # is in a file, whatever the rotation thread did)
+        if not i["hist"] or i["faults"] or i["crash"] or i["encfail"] or (i["obst"] and (i.get("gz") or i.get("nodir"))):
             continue
         wd = os.path.join(C.WORK, "c05_%s_%s" % (tier, i["name"]))
         inp, outp = os.path.join(wd, "cases.ndjson"), os.path.join(wd, "out_bg.ndjson")
